@@ -119,6 +119,10 @@ func c11Type1(c *h.Ctx, n int) {
 			if err != nil {
 				return nil
 			}
+			// the same state finalized again with the same response (a retry): the same token, on every run
+			if t2, err2 := s.FinalizeToken(append([]byte{}, resp...)); err2 != nil || !bytes.Equal(t2.Marshal(), t.Marshal()) {
+				c.Violation("the same request state finalized twice with the same response gives the same token", det)
+			}
 			return t.Marshal()
 		}
 		tA, tB, tA2 := fin(sA), fin(sB), fin(sA2)
@@ -296,6 +300,17 @@ func c11Type5(c *h.Ctx, n int) {
 			c.Violation("the supplied blinds are used (two blind lists give two requests)", det)
 		}
 		tA, errFA := sA.FinalizeTokens(respA)
+		if errFA == nil {
+			// a retry on the same state with the same response
+			tAgain, errAgain := sA.FinalizeTokens(append([]byte{}, respA...))
+			same := errAgain == nil && len(tAgain) == len(tA)
+			for j := 0; same && j < len(tA); j++ {
+				same = bytes.Equal(tAgain[j].Marshal(), tA[j].Marshal())
+			}
+			if !same {
+				c.Violation("the same request state finalized twice with the same response gives the same tokens", det)
+			}
+		}
 		respB, _ := iss.Evaluate(sB.Request())
 		tB, errFB := sB.FinalizeTokens(respB)
 		if errFA != nil || errFB != nil || len(tA) != k || len(tB) != k {
@@ -370,6 +385,9 @@ func c11Type2(c *h.Ctx, n int) {
 			if err != nil {
 				return nil
 			}
+			if t2, err2 := s.FinalizeToken(append([]byte{}, resp...)); err2 != nil || !bytes.Equal(t2.Marshal(), t.Marshal()) {
+				c.Violation("the same request state finalized twice with the same response gives the same token", det)
+			}
 			return t.Marshal()
 		}
 		tA, tB := fin(sA), fin(sB)
@@ -384,6 +402,15 @@ func c11Type2(c *h.Ctx, n int) {
 			c.Violation("the type-2 token verifies under the issuer key with crypto/rsa", det)
 		}
 		c.Case("type2:token-bytes", true, "token_bytes", [][]byte{u16b(2), nonce, chal, kid, tA[98:]}, [][]byte{tA})
+		// salts of other shapes (nil, empty, short, long): whatever the outcome, the same on every call
+		for _, sl := range [][]byte{nil, {}, {7}, rnd(c, 47), rnd(c, 49), rnd(c, 96)} {
+			x1, e1 := client.CreateTokenRequestWithBlind(chal, nonce, kid, &key.PublicKey, clone(b1), clone(sl))
+			x2, e2 := client.CreateTokenRequestWithBlind(chal, nonce, kid, &key.PublicKey, clone(b1), clone(sl))
+			c.Count("type2:salt-shapes", 2, fmt.Sprint(len(sl), sl == nil))
+			if (e1 == nil) != (e2 == nil) || (e1 == nil && !bytes.Equal(x1.Request().Marshal(), x2.Request().Marshal())) {
+				c.Violation("request creation with a fixed blind and salt is a pure function of its arguments (salt of another shape)", map[string]any{"type": 2, "salt_len": len(sl), "salt_nil": sl == nil})
+			}
+		}
 		// a different salt gives a different request (the salt is used)
 		if sC, err := client.CreateTokenRequestWithBlind(chal, nonce, kid, &key.PublicKey, b1, rnd(c, 48)); err == nil && bytes.Equal(sC.Request().Marshal(), sA.Request().Marshal()) {
 			c.Violation("the supplied salt is used", det)
